@@ -46,6 +46,9 @@ def ext_pair(a, b):
     return (a, b)
 def ext_sink(*a):
     return None
+class ext_box:
+    def __init__(self, v):
+        self.v = v
 class ext_cm:
     def __init__(self, v):
         self.v = v
@@ -61,8 +64,9 @@ EXTERNALS = {
     'ext_i2f': (['int'], 'float', None), 'ext_any2b': ([None], 'bool', None), 'ext_i2l': (['int'], 'list', None),
     'ext_i2t': (['int'], 'tuple', None), 'ext_id': ([None], None, 'id'), 'ext_pair': ([None, None], None, 'pair'),
     'ext_sink': ([], None, 'none'), 'ext_cm': ([None], ('other', 'ext_cm'), None),
+    'ext_box': ([None], ('other', 'ext_box'), None),
 }
-GLOBALS = {'G_I': 'int', 'G_S': 'str', 'G_F': 'float', 'G_L': 'list', 'G_LS': 'list', 'ext_cm': ('other', 'type')}
+GLOBALS = {'G_I': 'int', 'G_S': 'str', 'G_F': 'float', 'G_L': 'list', 'G_LS': 'list', 'ext_cm': ('other', 'type'), 'ext_box': ('other', 'type')}
 
 # a global that generated functions only ever *shadow* (as a loop variable): the inference must not look locals up outside
 SHADOW_GLOBALS = {'G_X': 'int'}
@@ -321,7 +325,7 @@ class Gen:
             kinds += ['def'] * 3
         if sc.fns:
             kinds += ['call'] * 3
-        kinds += ['aug', 'with']
+        kinds += ['aug', 'with', 'exotic', 'exotic']
         if 'untyped_assign' in P:
             kinds += ['untyped'] * 2
         if 'closure_out' in P and sc.fns:
@@ -367,6 +371,42 @@ class Gen:
             for v, t in zip(names, ts):
                 sc.env[v] = frozenset({t})
             return [pad + '%s = %s' % (lhs, rhs)]
+        if k == 'exotic':
+            # constructs the inference only walks through (`generic_visit`) or types via attributes / general callees
+            self.features.add('exotic')
+            form = r.choice(['dict', 'fstring', 'slice', 'comp', 'stararg', 'callcall', 'box', 'boxattr', 'attrtarget',
+                             'subtarget', 'augsub'])
+            anyv = sorted(sc.env) or None
+            v = r.choice(anyv) if anyv else None
+            e1 = self.expr(sc, r.choice(['int', 'str', 'float']), 1)
+            self.apply_effects(sc)
+            if form == 'dict':
+                return [pad + "ext_sink({'k': %s, 1: %s})" % (e1, v or '0')]
+            if form == 'fstring':
+                return [pad + "ext_sink(f'{%s}-{%s!r:>4}')" % (e1, v or '0')]
+            if form == 'slice':
+                return [pad + 'ext_sink(%s[0:1], %s[::2])' % (self.expr(sc, 'list', 1), self.expr(sc, 'str', 1))]
+            if form == 'comp':
+                return [pad + 'ext_sink([cv for cv in G_L if cv], {cv: %s for cv in G_LS})' % e1]
+            if form == 'stararg':
+                return [pad + 'ext_sink(*%s)' % self.expr(sc, ('prod', 'int', 'str'), 1)]
+            if form == 'callcall':
+                return [pad + 'ext_sink(ext_id(ext_i2s)(%s))' % self.expr(sc, 'int', 1)]
+            if form in ('box', 'boxattr', 'attrtarget', 'subtarget', 'augsub'):
+                out = [pad + 'bx = ext_box(%s)' % e1]
+                sc.env.pop('bx', None)
+                if form == 'boxattr':
+                    out.append(pad + 'ext_sink(bx.v, bx.v.w if False else 0)')
+                elif form == 'attrtarget':
+                    out.append(pad + 'bx.v = bx.w = %s' % e1)
+                    out.append(pad + 'bx.v += %s' % e1)
+                elif form == 'subtarget':
+                    out.append(pad + 'bl = [0, 1]')
+                    out.append(pad + 'bl[0] = bl[1] = %s' % e1)
+                elif form == 'augsub':
+                    out.append(pad + 'bl = [1, 2]')
+                    out.append(pad + 'bl[0] += 1')
+                return out
         if k == 'chain':
             # t1 = t2 = ... = value: several targets mixing plain names and (nested / starred) patterns, in any order
             n = r.choice([2, 2, 3])
@@ -594,6 +634,9 @@ class Gen:
                 body.append(pad + '%s = %s' % (y, loopvar))
                 body_sc.env[y] = body_sc.env[loopvar]
                 self.features.add('hazard:untyped_assign')
+            elif r.random() < 0.3:
+                body.append(pad + 'ext_sink(%s.__class__, %s.__str__())' % (loopvar, loopvar))    # attribute / method of an untyped value
+                self.features.add('attr_of_untyped')
             else:
                 body.append(pad + 'ext_sink(%s)' % loopvar)
         nb = r.choice([1, 2, 2])
